@@ -71,6 +71,8 @@ func checkC04(c *Ctx) {
 	c12ScenariosRule(c, "R04q", func(fn, rule string) bool { return fn == "validateOneofFlatten" })
 	r.Rule("R04r", "an emitted encoder writes one entry for every element of the collection it ranges over: inside the loop the store is guarded by nil tests only (an entry skipped for being empty cannot be restored by the decoder)", 2)
 	encoderKeepsEveryElement(c, "R04r")
+	r.Rule("R04t", "per message type, the emitted encoder consults a nested value's own codec exactly when the emitted decoder does", 1)
+	codecPairShape(c, "R04t", "")
 	r.Rule("R04s", "a slice or map that an emitted decoder fills inside a loop and stores per entry is declared inside the loop (a target declared once is aliased by every entry)", 1)
 	decodeTargetsPerIteration(c, "R04s")
 
@@ -789,4 +791,117 @@ func decodeTargetsPerIteration(c *Ctx, rid string) {
 		}
 	}
 	r.OKd(rid, "aggregate decode targets filled inside loops inspected", "", map[string]any{"targets_in_loops": nTargets, "declared_outside_and_stored": len(reported)})
+}
+
+// codecPairShape — R04t / R11k over every emitted Go unit variant.
+// R04t (ridSym): per receiver type, MarshalJSON consults a nested value's own codec (a type assertion to json.Marshaler)
+// exactly when UnmarshalJSON consults the nested value's own decoder (json.Unmarshaler): an encoder that writes the
+// element's annotated form while the decoder reads it with plain protojson cannot read back what it wrote.
+// R11k (ridRec): a method never hands its own receiver to the encoding/json entry point that calls that very method
+// (json.Unmarshal(data, x) inside x's UnmarshalJSON, json.Marshal(x) inside x's MarshalJSON): unbounded recursion, which
+// ends the process with a stack overflow that net/http cannot recover.
+func codecPairShape(c *Ctx, ridSym, ridRec string) {
+	r := c.R
+	nPairs, nFuncs := 0, 0
+	reported := map[string]bool{}
+	for _, ri := range c.goUnitRoots() {
+		ex := c.ExploreT(ri.Fn, 6000)
+		for _, v := range ex.Variants {
+			for _, u := range v.Units {
+				fset, f, err := ParseUnit(u)
+				if err != nil {
+					continue
+				}
+				gen := func(p token.Pos) string {
+					line := fset.Position(p).Line
+					if line >= 1 && line <= len(u.Lines) {
+						return c.P.Pos(u.Lines[line-1].Pos)
+					}
+					return ""
+				}
+				type pair struct{ enc, dec *ast.FuncDecl }
+				pairs := map[string]*pair{}
+				for _, d := range f.Decls {
+					fd, ok := d.(*ast.FuncDecl)
+					if !ok || fd.Body == nil || fd.Recv == nil || len(fd.Recv.List) == 0 {
+						continue
+					}
+					rt := types.ExprString(fd.Recv.List[0].Type)
+					if pairs[rt] == nil {
+						pairs[rt] = &pair{}
+					}
+					switch fd.Name.Name {
+					case "MarshalJSON":
+						pairs[rt].enc = fd
+					case "UnmarshalJSON":
+						pairs[rt].dec = fd
+					default:
+						continue
+					}
+					nFuncs++
+					if ridRec != "" && len(fd.Recv.List[0].Names) == 1 {
+						recv := fd.Recv.List[0].Names[0].Name
+						entry := map[string]string{"MarshalJSON": "json.Marshal", "UnmarshalJSON": "json.Unmarshal"}[fd.Name.Name]
+						ast.Inspect(fd.Body, func(n ast.Node) bool {
+							call, ok := n.(*ast.CallExpr)
+							if !ok || types.ExprString(call.Fun) != entry || len(call.Args) == 0 {
+								return true
+							}
+							arg := ast.Unparen(call.Args[len(call.Args)-1])
+							if ue, ok := arg.(*ast.UnaryExpr); ok && ue.Op == token.AND {
+								arg = ast.Unparen(ue.X)
+							}
+							if id, ok := arg.(*ast.Ident); ok && id.Name == recv {
+								k := fmt.Sprintf("%s *%s: %s does not hand its receiver back to %s", pkgShort(ri.Pkg), ri.Suffix, fd.Name.Name, entry)
+								if !reported[k] {
+									reported[k] = true
+									r.Bad(ridRec, k, gen(call.Pos()), "the emitted "+fd.Name.Name+" calls "+entry+" on its own receiver: encoding/json calls this method again, without bound; the goroutine's stack overflows and the whole server process dies instead of answering 400", nil)
+								}
+							}
+							return true
+						})
+					}
+				}
+				if ridSym == "" {
+					continue
+				}
+				mentions := func(fd *ast.FuncDecl, iface string) bool {
+					hit := false
+					ast.Inspect(fd.Body, func(n ast.Node) bool {
+						if ta, ok := n.(*ast.TypeAssertExpr); ok && ta.Type != nil && types.ExprString(ta.Type) == iface {
+							hit = true
+						}
+						return !hit
+					})
+					return hit
+				}
+				// the flatten and discriminated-oneof units emit the consultation per field / per variant kind, and an explored
+				// variant may combine an encoder arm for one field list with a decoder arm for another: their symmetry is
+				// decided key by key on the concrete corpus (R04d); here the units that must not consult at all, or both ways
+				if ri.Suffix == "_flatten.pb.go" || ri.Suffix == "_oneof_discriminator.pb.go" {
+					continue
+				}
+				for rt, p := range pairs {
+					if p.enc == nil || p.dec == nil {
+						continue
+					}
+					nPairs++
+					e, d := mentions(p.enc, "json.Marshaler"), mentions(p.dec, "json.Unmarshaler")
+					if e != d {
+						k := fmt.Sprintf("%s *%s: encoder and decoder of %s agree on consulting a nested value's own codec", pkgShort(ri.Pkg), ri.Suffix, holeFree(rt))
+						if !reported[k] {
+							reported[k] = true
+							r.Bad(ridSym, k, gen(p.enc.Pos()), fmt.Sprintf("the emitted MarshalJSON of %s %s a nested value's own MarshalJSON (json.Marshaler) while its UnmarshalJSON %s the nested value's own UnmarshalJSON: an element with its own codec (timestamp_format, bytes_encoding=HEX …) is written in its annotated form and read back with plain protojson — the decode fails or silently yields other bytes", holeFree(rt), map[bool]string{true: "consults", false: "does not consult"}[e], map[bool]string{true: "consults", false: "does not consult"}[d]), nil)
+						}
+					}
+				}
+			}
+		}
+	}
+	if ridSym != "" {
+		r.OKd(ridSym, "encoder/decoder pairs of emitted codecs compared", "", map[string]any{"pairs": nPairs, "asymmetric": len(reported)})
+	}
+	if ridRec != "" {
+		r.OKd(ridRec, "emitted MarshalJSON/UnmarshalJSON methods inspected for self-recursion through encoding/json", "", map[string]any{"methods": nFuncs})
+	}
 }
